@@ -411,7 +411,7 @@ Proof.
   intros H. unfold hstring. change str_fmt_pre with [34%N]. change str_fmt_post with [34%N]. cbn [app]. f_equal. f_equal.
   induction n as [|c r IH]; [reflexivity|]. simpl in H. apply andb_true_iff in H as [Hc Hr].
   destruct (name_char_facts c Hc) as (_ & H34 & H92 & H10 & H13 & H12).
-  cbn [hstring_loop]. unfold str_bs. rewrite H92. unfold Gen.Quote.str_plain, str_quote. rewrite H34.
+  cbn [hstringc_loop]. unfold str_bs. rewrite H92. unfold Gen.Quote.str_plain, str_quote. rewrite H34.
   unfold str_newlines. cbn [str_assoc]. rewrite (N.eqb_sym 10 c), (N.eqb_sym 13 c), (N.eqb_sym 12 c), H10, H13, H12.
   cbn [app]. now rewrite (IH Hr).
 Qed.
